@@ -196,6 +196,12 @@ int main() {
       } else if (cmd == "ANY") { int b; in >> o >> b; S(o - 1).Set_AnyNumerics(b); printf("{\"e\":\"SetAny\",\"o\":%d,\"b\":%s}\n", o, b ? "true" : "false");
       } else if (cmd == "STEPPER") { std::string n; int ad; unsigned ns; in >> o >> n >> ad >> ns; S(o - 1).Set_GSL_step(stepper(n)); S(o - 1).Set_AdaptiveStep(ad); S(o - 1).Set_NumSteps(ns);
       } else if (cmd == "TOL") { double r, a; in >> o >> r >> a; S(o - 1).Set_rel_error(r); S(o - 1).Set_abs_error(a);
+      } else if (cmd == "STEPCTL") {   // STEPCTL o n (kind value)*n : apply the setters, print the read-back; clock and state must be untouched
+        int n; in >> o >> n; TestSolver& s = S(o - 1);
+        s.Set_h_max(1e6); s.Set_h_min(0); s.Set_h(1);      // the initial state of module StepCtl (no re-centring on the way)
+        double t0 = s.Get_t(); uint64_t d0 = s.state_digest();
+        for (int k = 0; k < n; k++) { std::string kind; double v; in >> kind >> v; if (kind == "h") s.Set_h(v); else if (kind == "hmin") s.Set_h_min(v); else s.Set_h_max(v); }
+        printf("STEPCTL %.17g %.17g %.17g %d\n", s.Get_h(), s.Get_h_min(), s.Get_h_max(), (s.Get_t() == t0 && s.state_digest() == d0) ? 1 : 0);
       } else if (cmd == "TDEP") { int b; in >> o >> b; S(o - 1).tdep = b;
       } else if (cmd == "HMIN") { double x; in >> o >> x; S(o - 1).Set_h_min(x);
       } else if (cmd == "SCALE") { int e2; in >> o >> e2; S(o - 1).scale_state(std::ldexp(1.0, e2));
